@@ -1,13 +1,19 @@
 """C08 — plugins see time-aligned inputs and receive each input row exactly once.
 
 Model: lean/StraxModel/Model/Align.lean (`Strax.Align.iterModel`, a line-by-line model of `Plugin.iter`
-plus the time-range check of `Plugin.do_compute`); theorems: Props/C08.lean.
-Tie: a recording plugin is driven through the REAL `Plugin.iter` with plain Python iterators of real
-`strax.Chunk` objects (1-4 dependencies, 1-3 data kinds, every dependency in its own law-abiding chunking);
-the list of `compute` calls (start, end, rows per dependency) or the error kind is diffed with the driver.
-Oracle: the property's wording evaluated directly on the real call list: alignment, adjacency, every row
-delivered exactly once and in order, nothing dropped without an error under the strict (saved) policy, and
-errors only when rows would be dropped (or in the documented ten-pass situation, which belongs to C01/D9).
+plus the time-range check of `Plugin.do_compute`; the save policy is decided by `saveWhenStrict` from the
+`save_when` values); theorems: Props/C08.lean (23).
+Tie: a recording plugin (single- or multi-output, `save_when` in NEVER / EXPLICIT / TARGET / ALWAYS or dict-valued)
+is driven through the REAL `Plugin.iter` with guarded plain iterators of real `strax.Chunk` objects (1-4
+dependencies, 1-3 data kinds, every dependency in its own law-abiding chunking, `iters` in any key order);
+the list of `compute` calls (start, end, rows per dependency) or the error kind is diffed with the driver
+(`c08.iter s:<save_when values> …`); one component repeats a subset at epoch-scale times (1.7e18 ns).
+Oracle: the property's wording evaluated directly on the real call list and on the `(start, end)` of every
+merged input chunk handed to `do_compute`: alignment, adjacency, every row delivered exactly once and in
+order, nothing dropped without an error by a plugin that is saved by default (TARGET / ALWAYS, any output),
+and errors only when an error is sanctioned — different run ends, an unfetched trailing zero-duration chunk,
+or the ten-pass limit, the latter accepted only when the MODEL classifies this very input as that limit
+(`c08.tenpass`; D9 is a finding of C01, not a C08 violation: an error is raised, nothing is dropped).
 """
 from __future__ import annotations
 
@@ -25,13 +31,15 @@ from lib.straxlib import strax
 ID = "C08"
 LEAN_MODULES = ["StraxModel.Props.C08"]
 TRUSTED = [
-    "recording harness plugin (compute records start, end and the per-dependency id / time / endtime columns it is handed)",
+    "recording harness plugins (compute records start, end and the per-dependency id / time / endtime columns it is handed; an overridden do_compute records the (start, end) of every merged input chunk and then calls the real one)",
+    "the real code is evaluated in forked worker processes for large batches (same function, same inputs)",
     "modelled not verified: numpy concatenate / slicing, strax.merge_arrs column merge (the harness gives every dependency its own columns), Python generator protocol of Plugin.iter",
 ]
 ASSUMPTIONS = [
     "rows are identified by an opaque id; every dependency carries private copies of time / endtime / id so that what each dependency contributed to a merged same-kind input stays observable",
-    "chunks are handed to Plugin.iter by plain iterators (mailboxes / loaders are C05 / C03); online-input waiting (is_ready / source_finished) and executor submission are outside this model",
-    "the ten-pass limit of the re-trim loop (D9, reported under C01) is an expected RuntimeError here: an error is raised, nothing is dropped",
+    "chunks are handed to Plugin.iter by plain iterators (mailboxes / loaders are C05 / C03); online-input waiting (is_ready / source_finished), executor submission, chunk_number and superrun-annotated inputs are outside this model",
+    "the ten-pass limit of the re-trim loop (D9, a finding of C01) is not a C08 violation (an error is raised, nothing is dropped); the oracle accepts it only when the model classifies the input as exactly that limit (ten passes fail, a budget of rows + 2 passes runs on; if the run then still ends in an error, only when the dependencies end at different times or an unfetched trailing zero-duration chunk exists)",
+    "outside the quantifier (malformed stream: different starts, gaps, swapped chunks, empty iterators, rows outside their chunk) only model / implementation agreement is compared; there the IterDone loop is modelled in depends_on order",
 ]
 
 _MSG: dict[int, tuple] = {}   # side channel for the oracle only, id(case) -> (case, exception message / input-range finding)
